@@ -152,7 +152,7 @@ Definition track_msg (acc : track * list iev * list Z) (m : smsg) : track * list
       let e := auth tid sender ++ (if lenZ (admins_of tr tid) <=? 1 then [43] else []) in
       (mkTr (tr_pend tr) (tr_maxid tr) (zinsert tid (remove_first a (admins_of tr tid)) (tr_admins tr)), evs, errs ++ e)
   | MUpdatePeriod sender tid _ => (tr, evs, errs ++ auth tid sender)
-  | MCreateTenant sender _ _ | MCreateTenantMC sender _ _ =>
+  | MCreateTenant sender _ _ | MCreateTenantMC sender _ _ _ _ =>
       (mkTr (tr_pend tr) (tr_maxid tr) (zinsert (next_tid tr) [sender] (tr_admins tr)), evs, errs)
   | MDeposit _ _ _ _ => (tr, evs, errs)
   end.
